@@ -6,7 +6,8 @@ For every function of selftest/samples.py and every input pair (a, b) of a grid,
     operator, comparison, branch decision and loop goes through the same z3 encoding the contracts of numpoly use.
 Loops over a symbolic range are cut at real invariants (LOOPS below), so initiation, preservation and use of the invariant go
 through the same machinery as the contracts' loops.  Functions named refused_* use constructs the executor does not encode
-(`except` across a class hierarchy, for/else over a symbolic range, // on floats): it must refuse them.
+(`except` across a class hierarchy, for/else over a symbolic range, // on floats, a loop-carried variable its loop
+specification does not describe): it must refuse them.
 Obligations: the executor's outcome has CPython's kind, exception name and value.  One control obligation per input (value ==
 CPython's value + 1) must NOT be discharged, and the vacuity query of each case must not be provable - so a pipeline that
 proves everything is noticed as well.  Exit 0: all as expected; 1: the executor disagrees with CPython (an unsound or wrong
@@ -67,6 +68,10 @@ LOOPS = {
     "for_continue": {1: _spec(("acc", "i"), lambda env, k: [("count", env["acc"] == k - z3.If(z3.And(0 <= env["b"], env["b"] < k), 1, 0))])},
     # for i in range(n): if i >= b: found = i; break
     "for_break": {1: _spec(("found", "i"), lambda env, k: [("not_found_yet", z3.And(env["found"] == -1, z3.Or(k == 0, k - 1 < env["b"])))])},
+    # for i in range(n): acc = acc + carry; carry = b  -- the loop specification declares `carry` modified but its havoc and its
+    # invariant say nothing about it: the executor must refuse to read the left-over value instead of treating it as every iteration's
+    "refused_stale_loop_value": {1: LoopSpec(lambda ex, env, k: [("trivial", env["acc"] == env["acc"])],
+                                             lambda ex, env, k: env.__setitem__("acc", ex.ctx.int("acc")), modifies=("acc", "i", "carry"))},
 }
 
 
